@@ -270,7 +270,15 @@ func (fg *FuncGen) trIdent(name string, env *SpecEnv, hint types.Type) Val {
 	}
 	// locals of the function under verification
 	if env.fn != nil && env.scopePos.IsValid() {
-		if v, ok := fg.g.lookupLocal(env.fn, env.scopePos, name); ok {
+		v, ok := fg.g.lookupLocal(env.fn, env.scopePos, name)
+		if !ok {
+			if nn, ren := fg.g.renamesOf(env.fn)[name]; ren {
+				if v, ok = fg.g.lookupLocal(env.fn, env.scopePos, nn); ok {
+					fg.note("local %s of %s was called %s when the contracts were written: bound by type and position", nn, funcDisplayName(env.fn), name)
+				}
+			}
+		}
+		if ok {
 			if a := fg.allocFor(v); a != nil {
 				t := a.Type().(*types.Pointer).Elem()
 				if !a.Heap {
